@@ -550,7 +550,7 @@ class Check(BaseCheck):
             "unique_values_eq",
             kwargs,
             error=f"unique_values_eq({values})",
-            statistics={"values": values_mod},
+            statistics={"values": values},
             values=values_mod,
         )
 
